@@ -77,6 +77,11 @@ func (a *AWSKMS) EncryptKey(ctx context.Context, keyBytes []byte) ([]byte, error
 		KEKs:         a.encryptRegionalKEKs(ctx, dataKey),
 	}
 
+	if len(kekEn.KEKs) == 0 {
+		// without a single regional KEK nobody could ever unwrap the key again
+		return nil, errors.New("unable to encrypt the data key in any region")
+	}
+
 	b, err := json.Marshal(kekEn)
 	if err != nil {
 		return nil, fmt.Errorf("error marshalling envelope: %w", err)
